@@ -173,7 +173,7 @@ func vC16Budget(k *vKit, slow bool) int {
 		if slow {
 			return 60
 		}
-		return 800
+		return 600
 	}
 	if slow {
 		return 24
